@@ -99,6 +99,91 @@ theorem vjpLin_of3 {cl : Closure S} {f0 f1 f2 : Bool} {nd k0 k1 k2 : List Nat}
     exact ⟨k2, d1, d2, d3, t1, t2, rfl, rfl, rfl, rfl, r⟩
   | i + 3, hi => simp at hi
 
+/-! ### … and the same for scaling -/
+
+def EntryOutH (α : S) (f : Bool) (kd : List Nat) (o1 o3 : Option (Tensor S)) : Prop :=
+  f = true → ∃ d1 d3 t1, o1 = some d1 ∧ o3 = some d3 ∧
+    flattenTo d1 kd = .ok t1 ∧ flattenTo d3 kd = .ok (tsmul α t1)
+
+theorem whenT_hom [AddLaws S] [MulLaws S] [CommLaws S] (α : S) (f : Bool) (g : Tensor S → R (Tensor S)) (nd kd : List Nat)
+    (h : f = true → LinEntry g nd kd) (x : Tensor S) (hx : Shaped nd x) :
+    ∃ o1 o3, whenT f (g x) = .ok o1 ∧ whenT f (g (tsmul α x)) = .ok o3 ∧ EntryOutH α f kd o1 o3 := by
+  cases f with
+  | false => exact ⟨none, none, rfl, rfl, fun h => by cases h⟩
+  | true =>
+    obtain ⟨d1, d3, t1, g1, g3, f1, f3⟩ := (h rfl).useHom α x hx
+    refine ⟨some d1, some d3, ?_, ?_, fun _ => ⟨d1, d3, t1, rfl, rfl, f1, f3⟩⟩
+    · simp [whenT, g1, Except.map]
+    · simp [whenT, g3, Except.map]
+
+theorem pass_hom [AddLaws S] [MulLaws S] [CommLaws S] (α : S) (f : Bool) (nd kd : List Nat) (hnd : ∀ d ∈ nd, 1 ≤ d)
+    (hkd : ∀ d ∈ kd, 1 ≤ d) (hfit : Fits kd nd = true) (x : Tensor S) (hx : Shaped nd x) :
+    EntryOutH α f kd (if f then some x else none) (if f then some (tsmul α x) else none) := by
+  intro hf
+  subst hf
+  obtain ⟨t1, f1, f3⟩ := flatten_hom α nd kd hnd hkd hfit x hx
+  exact ⟨x, tsmul α x, t1, rfl, rfl, f1, f3⟩
+
+theorem vjpHom_of1 {α : S} {cl : Closure S} {f0 : Bool} {nd k0 : List Nat}
+    (h : ∀ x, Shaped nd x → ∃ o1 o3, cl [f0] x = .ok [o1] ∧ cl [f0] (tsmul α x) = .ok [o3] ∧ EntryOutH α f0 k0 o1 o3) :
+    VjpHom α cl [f0] nd [k0] := by
+  intro x hx
+  obtain ⟨o1, o3, c1, c3, e⟩ := h x hx
+  refine ⟨[o1], [o3], c1, c3, ?_⟩
+  intro i hi
+  match i, hi with
+  | 0, hi =>
+    simp only [List.getElem?_cons_zero, Option.some.injEq] at hi
+    obtain ⟨d1, d3, t1, rfl, rfl, r⟩ := e hi
+    exact ⟨k0, d1, d3, t1, rfl, rfl, rfl, r⟩
+  | i + 1, hi => simp at hi
+
+theorem vjpHom_of2 {α : S} {cl : Closure S} {f0 f1 : Bool} {nd k0 k1 : List Nat}
+    (h : ∀ x, Shaped nd x → ∃ o1 o3 p1 p3, cl [f0, f1] x = .ok [o1, p1] ∧ cl [f0, f1] (tsmul α x) = .ok [o3, p3] ∧
+      EntryOutH α f0 k0 o1 o3 ∧ EntryOutH α f1 k1 p1 p3) : VjpHom α cl [f0, f1] nd [k0, k1] := by
+  intro x hx
+  obtain ⟨o1, o3, p1, p3, c1, c3, e, e'⟩ := h x hx
+  refine ⟨[o1, p1], [o3, p3], c1, c3, ?_⟩
+  intro i hi
+  match i, hi with
+  | 0, hi =>
+    simp only [List.getElem?_cons_zero, Option.some.injEq] at hi
+    obtain ⟨d1, d3, t1, rfl, rfl, r⟩ := e hi
+    exact ⟨k0, d1, d3, t1, rfl, rfl, rfl, r⟩
+  | 1, hi =>
+    simp only [List.getElem?_cons_succ, List.getElem?_cons_zero, Option.some.injEq] at hi
+    obtain ⟨d1, d3, t1, rfl, rfl, r⟩ := e' hi
+    exact ⟨k1, d1, d3, t1, rfl, rfl, rfl, r⟩
+  | i + 2, hi => simp at hi
+
+theorem vjpHom_of3 {α : S} {cl : Closure S} {f0 f1 f2 : Bool} {nd k0 k1 k2 : List Nat}
+    (h : ∀ x, Shaped nd x → ∃ o1 o3 p1 p3 q1 q3, cl [f0, f1, f2] x = .ok [o1, p1, q1] ∧
+      cl [f0, f1, f2] (tsmul α x) = .ok [o3, p3, q3] ∧
+      EntryOutH α f0 k0 o1 o3 ∧ EntryOutH α f1 k1 p1 p3 ∧ EntryOutH α f2 k2 q1 q3) :
+    VjpHom α cl [f0, f1, f2] nd [k0, k1, k2] := by
+  intro x hx
+  obtain ⟨o1, o3, p1, p3, q1, q3, c1, c3, e, e', e''⟩ := h x hx
+  refine ⟨[o1, p1, q1], [o3, p3, q3], c1, c3, ?_⟩
+  intro i hi
+  match i, hi with
+  | 0, hi =>
+    simp only [List.getElem?_cons_zero, Option.some.injEq] at hi
+    obtain ⟨d1, d3, t1, rfl, rfl, r⟩ := e hi
+    exact ⟨k0, d1, d3, t1, rfl, rfl, rfl, r⟩
+  | 1, hi =>
+    simp only [List.getElem?_cons_succ, List.getElem?_cons_zero, Option.some.injEq] at hi
+    obtain ⟨d1, d3, t1, rfl, rfl, r⟩ := e' hi
+    exact ⟨k1, d1, d3, t1, rfl, rfl, rfl, r⟩
+  | 2, hi =>
+    simp only [List.getElem?_cons_succ, List.getElem?_cons_zero, Option.some.injEq] at hi
+    obtain ⟨d1, d3, t1, rfl, rfl, r⟩ := e'' hi
+    exact ⟨k2, d1, d3, t1, rfl, rfl, rfl, r⟩
+  | i + 3, hi => simp at hi
+
+/-- additive and homogeneous: linear -/
+def VjpLinear (cl : Closure S) (t : List Bool) (nd : List Nat) (kd : List (List Nat)) : Prop :=
+  VjpLin cl t nd kd ∧ ∀ α : S, VjpHom α cl t nd kd
+
 /-! ### broadcast dimension facts -/
 
 theorem compatRev_bdims_right : ∀ (a b : List Nat), (∀ d ∈ a, 1 ≤ d) → (∀ d ∈ b, 1 ≤ d) → compatRev a b = true →
@@ -197,30 +282,66 @@ theorem specEwise_add_left [AddLaws S] (f : S → S → S) (hf : ∀ p q a, f (p
   simp only [tadd] at this
   rw [this, hf, hd]
 
+theorem tsmul_get [AddLaws S] [CommLaws S] (α : S) (x : Tensor S) (idx : List Nat) : (tsmul α x).get idx = α * x.get idx := by
+  simp only [Tensor.get]
+  exact tsmul_getD α x _
+
+theorem specEwise_smul_right [AddLaws S] [CommLaws S] (f : S → S → S) (hfs : ∀ (α a p : S), f a (α * p) = α * f a p)
+    (c : Tensor S) (α : S) (x : Tensor S) : specEwise f c (tsmul α x) = tsmul α (specEwise f c x) := by
+  have e1 : (tsmul α x).dims = x.dims := rfl
+  simp only [specEwise, specEwise', Tensor.ofFn, e1]
+  simp only [tsmul, List.map_map]
+  congr 1
+  apply List.map_congr_left
+  intro n _
+  simp only [Function.comp]
+  have := tsmul_get α x (proj x.dims (unflatten (bdims c.dims x.dims) n))
+  simp only [tsmul] at this
+  rw [this, hfs]
+
+theorem specEwise_smul_left [AddLaws S] [CommLaws S] (f : S → S → S) (hfs : ∀ (α p a : S), f (α * p) a = α * f p a)
+    (c : Tensor S) (α : S) (x : Tensor S) : specEwise f (tsmul α x) c = tsmul α (specEwise f x c) := by
+  have e1 : (tsmul α x).dims = x.dims := rfl
+  simp only [specEwise, specEwise', Tensor.ofFn, e1]
+  simp only [tsmul, List.map_map]
+  congr 1
+  apply List.map_congr_left
+  intro n _
+  simp only [Function.comp]
+  have := tsmul_get α x (proj x.dims (unflatten (bdims x.dims c.dims) n))
+  simp only [tsmul] at this
+  rw [this, hfs]
+
 /-- `x ↦ f c x` (broadcast, `c` constant) as an entry: delta of shape `nd`, `c` fits `nd` -/
-theorem linEntry_ewise_right [AddLaws S] (f : S → S → S) (hf : ∀ a p q, f a (p + q) = f a p + f a q)
+theorem linEntry_ewise_right [AddLaws S] [CommLaws S] (f : S → S → S) (hf : ∀ a p q, f a (p + q) = f a p + f a q)
+    (hfs : ∀ (α a p : S), f a (α * p) = α * f a p)
     (c : Tensor S) (nd kd : List Nat) (hc : c.WF) (hcn : c.dims ≠ []) (hnd : ∀ d ∈ nd, 1 ≤ d) (hnn : nd ≠ [])
     (hcompat : Compat c.dims nd = true) (hb : bdims c.dims nd = nd) (hkd : ∀ d ∈ kd, 1 ≤ d) (hfit : Fits kd nd = true) :
     LinEntry (fun x => ewise f c x) nd kd := by
-  refine ⟨nd, fun x => specEwise f c x, hnd, hkd, hfit, ?_, ?_⟩
+  refine ⟨nd, fun x => specEwise f c x, hnd, hkd, hfit, ?_, ?_, ?_⟩
   · intro x hx
     refine ⟨ewise_spec f c x hc (hx.wf hnd) hcn (by rw [hx.1]; exact hnn) (by rw [hx.1]; exact hcompat), ?_⟩
     have := specEwise_shaped f c x
     rwa [hx.1, hb] at this
   · intro x y hx hy
     exact specEwise_add_right f hf c x y (hx.1.trans hy.1.symm) (by rw [hx.2, hy.2])
+  · intro α x hx
+    exact specEwise_smul_right f hfs c α x
 
-theorem linEntry_ewise_left [AddLaws S] (f : S → S → S) (hf : ∀ p q a, f (p + q) a = f p a + f q a)
+theorem linEntry_ewise_left [AddLaws S] [CommLaws S] (f : S → S → S) (hf : ∀ p q a, f (p + q) a = f p a + f q a)
+    (hfs : ∀ (α p a : S), f (α * p) a = α * f p a)
     (c : Tensor S) (nd kd : List Nat) (hc : c.WF) (hcn : c.dims ≠ []) (hnd : ∀ d ∈ nd, 1 ≤ d) (hnn : nd ≠ [])
     (hcompat : Compat nd c.dims = true) (hb : bdims nd c.dims = nd) (hkd : ∀ d ∈ kd, 1 ≤ d) (hfit : Fits kd nd = true) :
     LinEntry (fun x => ewise f x c) nd kd := by
-  refine ⟨nd, fun x => specEwise f x c, hnd, hkd, hfit, ?_, ?_⟩
+  refine ⟨nd, fun x => specEwise f x c, hnd, hkd, hfit, ?_, ?_, ?_⟩
   · intro x hx
     refine ⟨ewise_spec f x c (hx.wf hnd) hc (by rw [hx.1]; exact hnn) hcn (by rw [hx.1]; exact hcompat), ?_⟩
     have := specEwise_shaped f x c
     rwa [hx.1, hb] at this
   · intro x y hx hy
     exact specEwise_add_left f hf c x y (hx.1.trans hy.1.symm) (by rw [hx.2, hy.2])
+  · intro α x hx
+    exact specEwise_smul_left f hfs c α x
 
 /-- pointwise maps that are additive: `x ↦ ⟨x.dims, map φ⟩` -/
 theorem mapT_add [AddLaws S] (φ : S → S) (hφ : ∀ p q, φ (p + q) = φ p + φ q) (x y : Tensor S)
@@ -232,19 +353,26 @@ theorem mapT_add [AddLaws S] (φ : S → S) (hφ : ∀ p q, φ (p + q) = φ p + 
   simp only [List.getElem?_map, List.getElem?_zipWith]
   cases x.vals[m]? <;> cases y.vals[m]? <;> simp [hφ]
 
-theorem linEntry_mapT [AddLaws S] (φ : S → S) (hφ : ∀ p q, φ (p + q) = φ p + φ q) (nd : List Nat) (hnd : ∀ d ∈ nd, 1 ≤ d) :
+theorem linEntry_mapT [AddLaws S] (φ : S → S) (hφ : ∀ p q, φ (p + q) = φ p + φ q) (hφs : ∀ α p : S, φ (α * p) = α * φ p)
+    (nd : List Nat) (hnd : ∀ d ∈ nd, 1 ≤ d) :
     LinEntry (fun x => (pure (mapT φ x) : R (Tensor S))) nd nd := by
-  refine ⟨nd, mapT φ, hnd, hnd, by simp [Fits, fitsRev_self], ?_, ?_⟩
+  refine ⟨nd, mapT φ, hnd, hnd, by simp [Fits, fitsRev_self], ?_, ?_, ?_⟩
   · intro x hx
     exact ⟨rfl, by simpa [Shaped, mapT] using hx⟩
   · intro x y hx hy
     exact mapT_add φ hφ x y (by rw [hx.2, hy.2])
+  · intro α x _
+    simp only [mapT, tsmul, List.map_map]
+    congr 1
+    apply List.map_congr_left
+    intro p _
+    simp [Function.comp, hφs]
 
 /-- `mul_values(k, delta)` under the operand's dimensions -/
-theorem linEntry_mulValuesL [AddLaws S] [MulLaws S] (k : List S) (nd : List Nat) (hnd : ∀ d ∈ nd, 1 ≤ d)
+theorem linEntry_mulValuesL [AddLaws S] [MulLaws S] [CommLaws S] (k : List S) (nd : List Nat) (hnd : ∀ d ∈ nd, 1 ≤ d)
     (hk : k.length = prod nd) :
     LinEntry (fun x => Tensor.mk? nd (mulValues k x.vals)) nd nd := by
-  refine ⟨nd, fun x => ⟨nd, mulValues k x.vals⟩, hnd, hnd, by simp [Fits, fitsRev_self], ?_, ?_⟩
+  refine ⟨nd, fun x => ⟨nd, mulValues k x.vals⟩, hnd, hnd, by simp [Fits, fitsRev_self], ?_, ?_, ?_⟩
   · intro x hx
     have hlen : (mulValues k x.vals).length = prod nd := by simp [mulValues, hk, hx.2]
     refine ⟨?_, rfl, hlen⟩
@@ -257,11 +385,19 @@ theorem linEntry_mulValuesL [AddLaws S] [MulLaws S] (k : List S) (nd : List Nat)
     intro m
     simp only [List.getElem?_zipWith]
     cases k[m]? <;> cases x.vals[m]? <;> cases y.vals[m]? <;> simp [MulLaws.left_distrib]
+  · intro α x _
+    simp only [tsmul, mulValues]
+    congr 1
+    apply List.ext_getElem?
+    intro m
+    simp only [List.getElem?_zipWith, List.getElem?_map]
+    cases k[m]? <;> cases x.vals[m]? <;> simp
+    rw [← CommLaws.mul_assoc, CommLaws.mul_comm _ α, CommLaws.mul_assoc]
 
-theorem linEntry_mulValuesR [AddLaws S] [MulLaws S] (k : List S) (nd : List Nat) (hnd : ∀ d ∈ nd, 1 ≤ d)
+theorem linEntry_mulValuesR [AddLaws S] [MulLaws S] [CommLaws S] (k : List S) (nd : List Nat) (hnd : ∀ d ∈ nd, 1 ≤ d)
     (hk : k.length = prod nd) :
     LinEntry (fun x => Tensor.mk? nd (mulValues x.vals k)) nd nd := by
-  refine ⟨nd, fun x => ⟨nd, mulValues x.vals k⟩, hnd, hnd, by simp [Fits, fitsRev_self], ?_, ?_⟩
+  refine ⟨nd, fun x => ⟨nd, mulValues x.vals k⟩, hnd, hnd, by simp [Fits, fitsRev_self], ?_, ?_, ?_⟩
   · intro x hx
     have hlen : (mulValues x.vals k).length = prod nd := by simp [mulValues, hk, hx.2]
     refine ⟨?_, rfl, hlen⟩
@@ -274,6 +410,14 @@ theorem linEntry_mulValuesR [AddLaws S] [MulLaws S] (k : List S) (nd : List Nat)
     intro m
     simp only [List.getElem?_zipWith]
     cases k[m]? <;> cases x.vals[m]? <;> cases y.vals[m]? <;> simp [MulLaws.right_distrib]
+  · intro α x _
+    simp only [tsmul, mulValues]
+    congr 1
+    apply List.ext_getElem?
+    intro m
+    simp only [List.getElem?_zipWith, List.getElem?_map]
+    cases x.vals[m]? <;> cases k[m]? <;> simp
+    rw [CommLaws.mul_assoc]
 
 end Corgi
 
@@ -282,38 +426,63 @@ variable {S : Type} [Add S] [Mul S] [Neg S] [Sub S] [ScalarOps S] [BEq S]
 
 /-! ### closure shapes -/
 
-theorem vjpLin_unary [AddLaws S] {cl : Closure S} {f0 : Bool} {nd k0 : List Nat} (g : Tensor S → R (Tensor S))
-    (hcl : ∀ x, cl [f0] x = (g x).bind (fun r => .ok [some r])) (h : LinEntry g nd k0) : VjpLin cl [f0] nd [k0] := by
-  apply vjpLin_of1
-  intro x y hx hy
-  obtain ⟨d1, d2, d3, t1, t2, g1, g2, g3, r⟩ := h.use x y hx hy
-  refine ⟨some d1, some d2, some d3, ?_, ?_, ?_, fun _ => ⟨d1, d2, d3, t1, t2, rfl, rfl, rfl, r⟩⟩
-  · rw [hcl, g1]; rfl
-  · rw [hcl, g2]; rfl
-  · rw [hcl, g3]; rfl
+theorem vjpLin_unary [AddLaws S] [MulLaws S] [CommLaws S] {cl : Closure S} {f0 : Bool} {nd k0 : List Nat} (g : Tensor S → R (Tensor S))
+    (hcl : ∀ x, cl [f0] x = (g x).bind (fun r => .ok [some r])) (h : LinEntry g nd k0) : VjpLinear cl [f0] nd [k0] := by
+  constructor
+  · apply vjpLin_of1
+    intro x y hx hy
+    obtain ⟨d1, d2, d3, t1, t2, g1, g2, g3, r⟩ := h.use x y hx hy
+    refine ⟨some d1, some d2, some d3, ?_, ?_, ?_, fun _ => ⟨d1, d2, d3, t1, t2, rfl, rfl, rfl, r⟩⟩
+    · rw [hcl, g1]; rfl
+    · rw [hcl, g2]; rfl
+    · rw [hcl, g3]; rfl
+  · intro α
+    apply vjpHom_of1
+    intro x hx
+    obtain ⟨d1, d3, t1, g1, g3, r⟩ := h.useHom α x hx
+    refine ⟨some d1, some d3, ?_, ?_, fun _ => ⟨d1, d3, t1, rfl, rfl, r⟩⟩
+    · rw [hcl, g1]; rfl
+    · rw [hcl, g3]; rfl
 
-theorem vjpLin_when1 [AddLaws S] {cl : Closure S} {f0 : Bool} {nd k0 : List Nat} (g : Tensor S → R (Tensor S))
+theorem vjpLin_when1 [AddLaws S] [MulLaws S] [CommLaws S] {cl : Closure S} {f0 : Bool} {nd k0 : List Nat} (g : Tensor S → R (Tensor S))
     (hcl : ∀ x, cl [f0] x = (whenT f0 (g x)).bind (fun r => .ok [r])) (h : f0 = true → LinEntry g nd k0) :
-    VjpLin cl [f0] nd [k0] := by
-  apply vjpLin_of1
-  intro x y hx hy
-  obtain ⟨o1, o2, o3, g1, g2, g3, e⟩ := whenT_lin f0 g nd k0 h x y hx hy
-  refine ⟨o1, o2, o3, ?_, ?_, ?_, e⟩
-  · rw [hcl, g1]; rfl
-  · rw [hcl, g2]; rfl
-  · rw [hcl, g3]; rfl
+    VjpLinear cl [f0] nd [k0] := by
+  constructor
+  · apply vjpLin_of1
+    intro x y hx hy
+    obtain ⟨o1, o2, o3, g1, g2, g3, e⟩ := whenT_lin f0 g nd k0 h x y hx hy
+    refine ⟨o1, o2, o3, ?_, ?_, ?_, e⟩
+    · rw [hcl, g1]; rfl
+    · rw [hcl, g2]; rfl
+    · rw [hcl, g3]; rfl
+  · intro α
+    apply vjpHom_of1
+    intro x hx
+    obtain ⟨o1, o3, g1, g3, e⟩ := whenT_hom α f0 g nd k0 h x hx
+    refine ⟨o1, o3, ?_, ?_, e⟩
+    · rw [hcl, g1]; rfl
+    · rw [hcl, g3]; rfl
 
-theorem vjpLin_when2 [AddLaws S] {cl : Closure S} {f0 f1 : Bool} {nd k0 k1 : List Nat} (g0 g1 : Tensor S → R (Tensor S))
+theorem vjpLin_when2 [AddLaws S] [MulLaws S] [CommLaws S] {cl : Closure S} {f0 f1 : Bool} {nd k0 k1 : List Nat} (g0 g1 : Tensor S → R (Tensor S))
     (hcl : ∀ x, cl [f0, f1] x = (whenT f0 (g0 x)).bind (fun u => (whenT f1 (g1 x)).bind (fun v => .ok [u, v])))
-    (h0 : f0 = true → LinEntry g0 nd k0) (h1 : f1 = true → LinEntry g1 nd k1) : VjpLin cl [f0, f1] nd [k0, k1] := by
-  apply vjpLin_of2
-  intro x y hx hy
-  obtain ⟨o1, o2, o3, a1, a2, a3, e⟩ := whenT_lin f0 g0 nd k0 h0 x y hx hy
-  obtain ⟨p1, p2, p3, b1, b2, b3, e'⟩ := whenT_lin f1 g1 nd k1 h1 x y hx hy
-  refine ⟨o1, o2, o3, p1, p2, p3, ?_, ?_, ?_, e, e'⟩
-  · rw [hcl, a1, b1]; rfl
-  · rw [hcl, a2, b2]; rfl
-  · rw [hcl, a3, b3]; rfl
+    (h0 : f0 = true → LinEntry g0 nd k0) (h1 : f1 = true → LinEntry g1 nd k1) : VjpLinear cl [f0, f1] nd [k0, k1] := by
+  constructor
+  · apply vjpLin_of2
+    intro x y hx hy
+    obtain ⟨o1, o2, o3, a1, a2, a3, e⟩ := whenT_lin f0 g0 nd k0 h0 x y hx hy
+    obtain ⟨p1, p2, p3, b1, b2, b3, e'⟩ := whenT_lin f1 g1 nd k1 h1 x y hx hy
+    refine ⟨o1, o2, o3, p1, p2, p3, ?_, ?_, ?_, e, e'⟩
+    · rw [hcl, a1, b1]; rfl
+    · rw [hcl, a2, b2]; rfl
+    · rw [hcl, a3, b3]; rfl
+  · intro α
+    apply vjpHom_of2
+    intro x hx
+    obtain ⟨o1, o3, a1, a3, e⟩ := whenT_hom α f0 g0 nd k0 h0 x hx
+    obtain ⟨p1, p3, b1, b3, e'⟩ := whenT_hom α f1 g1 nd k1 h1 x hx
+    refine ⟨o1, o3, p1, p3, ?_, ?_, e, e'⟩
+    · rw [hcl, a1, b1]; rfl
+    · rw [hcl, a3, b3]; rfl
 
 /-- a valid dimension list for a node or an operand -/
 def DimsOK (d : List Nat) : Prop := d ≠ [] ∧ ∀ k ∈ d, 1 ≤ k
@@ -328,27 +497,39 @@ theorem Fits_self (d : List Nat) : Fits d d = true := by simp [Fits, fitsRev_sel
 theorem Compat_self (d : List Nat) : Compat d d = true := by simp [Compat, compatRev_self]
 
 section tags
-variable [AddLaws S] [MulLaws S]
+variable [AddLaws S] [MulLaws S] [CommLaws S]
+
+theorem mul_smul_right (α a p : S) : a * (α * p) = α * (a * p) := by
+  rw [← CommLaws.mul_assoc, CommLaws.mul_comm a α, CommLaws.mul_assoc]
+
+theorem mul_smul_left (α p a : S) : (α * p) * a = α * (p * a) := CommLaws.mul_assoc α p a
 
 theorem vjp_lin_add (a b self : Tensor S) (f0 f1 : Bool) (ha : OperandOK a) (hb : OperandOK b)
     (hc : Compat a.dims b.dims = true) :
-    VjpLin (vjp .add [a, b] self) [f0, f1] (bdims a.dims b.dims) [a.dims, b.dims] := by
+    VjpLinear (vjp .add [a, b] self) [f0, f1] (bdims a.dims b.dims) [a.dims, b.dims] := by
   have hnd := bdims_pos a.dims b.dims ha.1.1 hb.1.1
-  apply vjpLin_of2
-  intro x y hx hy
-  refine ⟨_, _, _, _, _, _, rfl, rfl, rfl, ?_, ?_⟩
-  · exact pass_lin f0 _ _ hnd ha.1.1 (Fits_bdims_left _ _ ha.1.1 hc) x y hx hy
-  · exact pass_lin f1 _ _ hnd hb.1.1 (Fits_bdims_right _ _ hb.1.1 hc) x y hx hy
+  constructor
+  · apply vjpLin_of2
+    intro x y hx hy
+    refine ⟨_, _, _, _, _, _, rfl, rfl, rfl, ?_, ?_⟩
+    · exact pass_lin f0 _ _ hnd ha.1.1 (Fits_bdims_left _ _ ha.1.1 hc) x y hx hy
+    · exact pass_lin f1 _ _ hnd hb.1.1 (Fits_bdims_right _ _ hb.1.1 hc) x y hx hy
+  · intro α
+    apply vjpHom_of2
+    intro x hx
+    refine ⟨_, _, _, _, rfl, rfl, ?_, ?_⟩
+    · exact pass_hom α f0 _ _ hnd ha.1.1 (Fits_bdims_left _ _ ha.1.1 hc) x hx
+    · exact pass_hom α f1 _ _ hnd hb.1.1 (Fits_bdims_right _ _ hb.1.1 hc) x hx
 
 theorem vjp_lin_mul (a b self : Tensor S) (f0 f1 : Bool) (ha : OperandOK a) (hb : OperandOK b)
     (hc : Compat a.dims b.dims = true) :
-    VjpLin (vjp .mul [a, b] self) [f0, f1] (bdims a.dims b.dims) [a.dims, b.dims] := by
+    VjpLinear (vjp .mul [a, b] self) [f0, f1] (bdims a.dims b.dims) [a.dims, b.dims] := by
   have hnd := bdims_pos a.dims b.dims ha.1.1 hb.1.1
   have hnn := bdims_ne_nil a.dims b.dims ha.2
   refine vjpLin_when2 (fun x => mul b x) (fun x => mul a x) (fun x => rfl) (fun _ => ?_) (fun _ => ?_)
-  · exact linEntry_ewise_right (· * ·) MulLaws.left_distrib b _ _ hb.1 hb.2 hnd hnn
+  · exact linEntry_ewise_right (· * ·) MulLaws.left_distrib mul_smul_right b _ _ hb.1 hb.2 hnd hnn
       (Compat_bdims_right _ _ ha.1.1 hb.1.1 hc) (bdims_absorb_right _ _) ha.1.1 (Fits_bdims_left _ _ ha.1.1 hc)
-  · exact linEntry_ewise_right (· * ·) MulLaws.left_distrib a _ _ ha.1 ha.2 hnd hnn
+  · exact linEntry_ewise_right (· * ·) MulLaws.left_distrib mul_smul_right a _ _ ha.1 ha.2 hnd hnn
       (Compat_bdims_left _ _ ha.1.1 hb.1.1 hc) (bdims_absorb_left _ _) hb.1.1 (Fits_bdims_right _ _ hb.1.1 hc)
 
 theorem mapT_wf (φ : S → S) (a : Tensor S) (h : a.WF) : (mapT φ a).WF := by
@@ -356,7 +537,7 @@ theorem mapT_wf (φ : S → S) (a : Tensor S) (h : a.WF) : (mapT φ a).WF := by
 
 theorem vjp_lin_div (a b self : Tensor S) (f0 f1 : Bool) (ha : OperandOK a) (hb : OperandOK b)
     (hc : Compat a.dims b.dims = true) :
-    VjpLin (vjp .div [a, b] self) [f0, f1] (bdims a.dims b.dims) [a.dims, b.dims] := by
+    VjpLinear (vjp .div [a, b] self) [f0, f1] (bdims a.dims b.dims) [a.dims, b.dims] := by
   have hnd := bdims_pos a.dims b.dims ha.1.1 hb.1.1
   have hnn := bdims_ne_nil a.dims b.dims ha.2
   -- the constant factor of the second entry
@@ -368,73 +549,73 @@ theorem vjp_lin_div (a b self : Tensor S) (f0 f1 : Bool) (ha : OperandOK a) (hb 
   refine vjpLin_when2 (fun x => div x b) (fun x => mul Q x) (fun x => ?_) (fun _ => ?_) (fun _ => ?_)
   · simp only [vjp, kid, flag, getR, List.getElem?_cons_zero, List.getElem?_cons_succ, pure, Except.pure, bind,
       Except.bind, hq]
-  · refine linEntry_ewise_left ScalarOps.div MulLaws.div_add b _ _ hb.1 hb.2 hnd hnn ?_ ?_ ha.1.1
+  · refine linEntry_ewise_left ScalarOps.div MulLaws.div_add CommLaws.div_smul b _ _ hb.1 hb.2 hnd hnn ?_ ?_ ha.1.1
       (Fits_bdims_left _ _ ha.1.1 hc)
     · rw [Compat_comm]; exact Compat_bdims_right _ _ ha.1.1 hb.1.1 hc
     · rw [bdims_comm]; exact bdims_absorb_right _ _
-  · refine linEntry_ewise_right (· * ·) MulLaws.left_distrib Q _ _ (hQs.wf hnd) (by rw [hQs.1]; exact hnn) hnd hnn
+  · refine linEntry_ewise_right (· * ·) MulLaws.left_distrib mul_smul_right Q _ _ (hQs.wf hnd) (by rw [hQs.1]; exact hnn) hnd hnn
       (by rw [hQs.1]; exact Compat_self _) (by rw [hQs.1]; exact bdims_self _) hb.1.1 (Fits_bdims_right _ _ hb.1.1 hc)
 
 /-- a unary closure `mul(K, delta)` with `K` of the operand's shape -/
 theorem vjp_lin_constmul (cl : Closure S) (K a : Tensor S) (f0 : Bool) (ha : OperandOK a) (hK : Shaped a.dims K)
-    (hcl : ∀ x, cl [f0] x = (mul K x).bind (fun r => .ok [some r])) : VjpLin cl [f0] a.dims [a.dims] :=
+    (hcl : ∀ x, cl [f0] x = (mul K x).bind (fun r => .ok [some r])) : VjpLinear cl [f0] a.dims [a.dims] :=
   vjpLin_unary (fun x => mul K x) hcl
-    (linEntry_ewise_right (· * ·) MulLaws.left_distrib K _ _ (hK.wf ha.1.1) (by rw [hK.1]; exact ha.2) ha.1.1 ha.2
+    (linEntry_ewise_right (· * ·) MulLaws.left_distrib mul_smul_right K _ _ (hK.wf ha.1.1) (by rw [hK.1]; exact ha.2) ha.1.1 ha.2
       (by rw [hK.1]; exact Compat_self _) (by rw [hK.1]; exact bdims_self _) ha.1.1 (Fits_self _))
 
 theorem mapT_shaped (φ : S → S) (a : Tensor S) (h : a.WF) : Shaped a.dims (mapT φ a) := by
   simp [Shaped, mapT, h.2]
 
 theorem vjp_lin_powf (e : S) (a self : Tensor S) (f0 : Bool) (ha : OperandOK a) :
-    VjpLin (vjp (.powf e) [a] self) [f0] a.dims [a.dims] :=
+    VjpLinear (vjp (.powf e) [a] self) [f0] a.dims [a.dims] :=
   vjp_lin_constmul _ (scale (powf a (e - one)) e) a f0 ha
     (by simp [Shaped, scale, powf, mapT, ha.1.2]) (fun x => rfl)
 
 theorem vjp_lin_recip (a self : Tensor S) (f0 : Bool) (ha : OperandOK a) :
-    VjpLin (vjp .recip [a] self) [f0] a.dims [a.dims] :=
+    VjpLinear (vjp .recip [a] self) [f0] a.dims [a.dims] :=
   vjp_lin_constmul _ (neg (powf (recip a) (one + one))) a f0 ha
     (by simp [Shaped, neg, scale, powf, recip, mapT, ha.1.2]) (fun x => rfl)
 
 theorem vjp_lin_relu (a self : Tensor S) (f0 : Bool) (ha : OperandOK a) :
-    VjpLin (vjp .relu [a] self) [f0] a.dims [a.dims] :=
+    VjpLinear (vjp .relu [a] self) [f0] a.dims [a.dims] :=
   vjp_lin_constmul _ ⟨a.dims, a.vals.map (fun v => if ScalarOps.pos v then one else zero)⟩ a f0 ha
     (by simp [Shaped, ha.1.2]) (fun x => rfl)
 
 theorem vjp_lin_ln (a self : Tensor S) (f0 : Bool) (ha : OperandOK a) :
-    VjpLin (vjp .ln [a] self) [f0] a.dims [a.dims] :=
+    VjpLinear (vjp .ln [a] self) [f0] a.dims [a.dims] :=
   vjpLin_unary (fun x => mul x (recip a)) (fun x => rfl)
-    (linEntry_ewise_left (· * ·) MulLaws.right_distrib (recip a) _ _ (mapT_wf _ a ha.1) ha.2 ha.1.1 ha.2
+    (linEntry_ewise_left (· * ·) MulLaws.right_distrib mul_smul_left (recip a) _ _ (mapT_wf _ a ha.1) ha.2 ha.1.1 ha.2
       (Compat_self _) (bdims_self _) ha.1.1 (Fits_self _))
 
 theorem vjp_lin_neg (a self : Tensor S) (f0 : Bool) (ha : OperandOK a) :
-    VjpLin (vjp .neg [a] self) [f0] a.dims [a.dims] :=
+    VjpLinear (vjp .neg [a] self) [f0] a.dims [a.dims] :=
   vjpLin_unary (fun x => pure (mapT (· * (-one)) x)) (fun x => rfl)
-    (linEntry_mapT _ (fun p q => MulLaws.right_distrib p q _) _ ha.1.1)
+    (linEntry_mapT _ (fun p q => MulLaws.right_distrib p q _) (fun α p => mul_smul_left α p _) _ ha.1.1)
 
 theorem vjp_lin_scale (s : S) (a self : Tensor S) (f0 : Bool) (ha : OperandOK a) :
-    VjpLin (vjp (.scale s) [a] self) [f0] a.dims [a.dims] :=
+    VjpLinear (vjp (.scale s) [a] self) [f0] a.dims [a.dims] :=
   vjpLin_unary (fun x => pure (mapT (· * s) x)) (fun x => rfl)
-    (linEntry_mapT _ (fun p q => MulLaws.right_distrib p q _) _ ha.1.1)
+    (linEntry_mapT _ (fun p q => MulLaws.right_distrib p q _) (fun α p => mul_smul_left α p _) _ ha.1.1)
 
 theorem vjp_lin_custom2 (a self : Tensor S) (f0 : Bool) (ha : OperandOK a) :
-    VjpLin (vjp (.custom 2) [a] self) [f0] a.dims [a.dims] :=
+    VjpLinear (vjp (.custom 2) [a] self) [f0] a.dims [a.dims] :=
   vjpLin_when1 (fun x => pure (mapT (· * (one + one)) x)) (fun x => rfl)
-    (fun _ => linEntry_mapT _ (fun p q => MulLaws.right_distrib p q _) _ ha.1.1)
+    (fun _ => linEntry_mapT _ (fun p q => MulLaws.right_distrib p q _) (fun α p => mul_smul_left α p _) _ ha.1.1)
 
 theorem vjp_lin_exp (a self : Tensor S) (f0 : Bool) (ha : OperandOK a) (hs : self.vals.length = prod a.dims) :
-    VjpLin (vjp .exp [a] self) [f0] a.dims [a.dims] :=
+    VjpLinear (vjp .exp [a] self) [f0] a.dims [a.dims] :=
   vjpLin_unary (fun x => Tensor.mk? a.dims (mulValues x.vals self.vals)) (fun x => rfl)
     (linEntry_mulValuesR self.vals _ ha.1.1 hs)
 
 theorem vjp_lin_sigmoid (a self : Tensor S) (f0 : Bool) (ha : OperandOK a) (hs : self.vals.length = prod a.dims) :
-    VjpLin (vjp .sigmoid [a] self) [f0] a.dims [a.dims] :=
+    VjpLinear (vjp .sigmoid [a] self) [f0] a.dims [a.dims] :=
   vjpLin_unary (fun x => Tensor.mk? a.dims (mulValues (self.vals.map (fun v => v * (one - v))) x.vals)) (fun x => rfl)
     (linEntry_mulValuesL _ _ ha.1.1 (by simpa using hs))
 
 theorem vjp_lin_reshape (a self : Tensor S) (nd : List Nat) (f0 : Bool) (ha : OperandOK a) (hnd : DimsOK nd)
-    (hp : prod nd = prod a.dims) : VjpLin (vjp .reshape [a] self) [f0] nd [a.dims] := by
+    (hp : prod nd = prod a.dims) : VjpLinear (vjp .reshape [a] self) [f0] nd [a.dims] := by
   refine vjpLin_when1 (fun x => reshape x a.dims) (fun x => rfl) (fun _ => ?_)
-  refine ⟨a.dims, fun x => ⟨a.dims, x.vals⟩, ha.1.1, ha.1.1, Fits_self _, ?_, fun x y _ _ => rfl⟩
+  refine ⟨a.dims, fun x => ⟨a.dims, x.vals⟩, ha.1.1, ha.1.1, Fits_self _, ?_, fun x y _ _ => rfl, fun α x _ => rfl⟩
   intro x hx
   have h1 : a.dims.all (fun d => decide (1 ≤ d)) = true := by simpa using ha.1.1
   have h2 : prod a.dims = x.vals.length := by rw [hx.2, hp]
